@@ -43,6 +43,10 @@ func vHtVersions() []vHtVersion {
 		{content: "mallory:plaintext-password\n", good: false},                                     // invalid entry
 		mk(map[string]string{"bob": "pw-b2"}),                                                      // everything replaced
 		mk(map[string]string{"alice": "pw-a1", "bob": "pw-b1", "carol": "pw-c1", "dave": "pw-d1"}), // many entries
+		// versions without a single valid entry (the moment between truncation and rewrite looks like this): a failed reload
+		{content: "", good: false},
+		{content: "# alice:{SHA}commented-out\n", good: false},
+		{content: "\n\n", good: false},
 	}
 }
 
